@@ -133,11 +133,24 @@ def _work(job):
     tree = prop.project(tr)
     text = sx.dump(tree)
     v = _DRV.ask(prop.num, text)
+    # a rejection on a mechanism-only clause: ask again in relaxed mode (property clauses only) to see
+    # whether a genuine failing input is at hand; if not the case is reported as a broken correspondence
+    if v[0] == 'R' and v[2] in getattr(prop, 'soft_clauses', ()):
+        v2 = _DRV.ask(prop.num, sx.dump(prop.project(tr, relaxed=True)))
+        if v2[0] == 'A':
+            res['soft'] = {'clause': v[2], 'frame': v[1]}
+        else:
+            v = v2
     res['verdict'] = v
     res['nontrivial'] = bool(prop.nontrivial(tr)) and len(tr.frames) >= prop.min_frames
     res['stats'] = prop.stats(tr)
     res['status'] = 'ok'
     bad = v[0] != 'A' or (tr.exc is not None and prop.exc_is_violation)
+    if bad and 'soft' in res:
+        res['soft']['cfg'] = cfg
+        res['soft']['detail'] = prop.explain(tr, v) if hasattr(prop, 'explain') else None
+        bad = False
+        res['verdict'] = ('A', [])
     if bad:
         res['cfg'] = cfg
         res['finding'] = findings.match(prop.id, cfg, tr, v)
@@ -394,6 +407,18 @@ def run_check(pid, tier, seed, replay=None):
         json.dump(dict(viol, property=pid, job={'prop': pid}), open(path, 'w'), indent=1, default=str)
         lines.append('VIOLATION property=%s replay=%s' % (pid, path))
         exit_code = 1
+    softs = [r['soft'] for r in results if r.get('soft')]
+    cov_soft = len(softs)
+    if softs and exit_code == 0:
+        path = os.path.join(REPLAYS, '%s_%s_correspondence.json' % (pid, tier))
+        s0 = softs[0]
+        json.dump({'property': pid, 'kind': 'correspondence', 'clause': s0['clause'], 'clause_text': prop.clause_text.get(s0['clause']),
+                   'frame': s0['frame'], 'cfg': s0['cfg'], 'detail': s0.get('detail'), 'cases_with_mechanism_divergence': len(softs),
+                   'note': 'the mechanism clause (model/implementation correspondence) no longer checks; the property clauses held on '
+                           'all %d generated runs including this one' % cov['evaluations'], 'job': {'prop': pid}},
+                  open(path, 'w'), indent=1, default=str)
+        lines.append('VIOLATION property=%s replay=%s no-failing-input-found' % (pid, path))
+        exit_code = 1
     if not pr['ok'] and exit_code == 0:
         path = os.path.join(REPLAYS, '%s_%s_proof.json' % (pid, tier))
         json.dump({'property': pid, 'broken': pr.get('broken'), 'log': pr['log'],
@@ -409,7 +434,7 @@ def run_check(pid, tier, seed, replay=None):
                 'checker_cmd': pr.get('checker_cmd', ''), 'trusted_base': TRUSTED_BASE,
                 'axioms_reported_by_Print_Assumptions': pr.get('axioms', []),
                 'kernel_crosscheck': kc, 'known_findings_hit': known_hit, 'mechanism_stats': agg_stats,
-                'proof_log': pr['log'], 'violations_detail': [{k: v for k, v in x.items() if k != 'cfg'} for x in violations[:3]]})
+                'proof_log': pr['log'], 'mechanism_divergences': cov_soft, 'violations_detail': [{k: v for k, v in x.items() if k != 'cfg'} for x in violations[:3]]})
     if 'coqchk' in pr:
         cov['coqchk'] = pr['coqchk']
     if hasattr(prop, 'extra_coverage'):
